@@ -93,6 +93,11 @@ func (q *ShardQueue) Add(gts ...WriterGetter) {
 	if atomic.LoadInt32(&q.state) != active {
 		return
 	}
+	if len(gts) == 0 {
+		// nothing to add: triggering would leave the shard empty, so that later Adds trigger it again
+		// and the trigger ring (one slot per shard) overflows into another shard's pending entry.
+		return
+	}
 	// the counter wraps after 2^31 Adds: take the remainder of the unsigned value, a negative shard would panic
 	shard := int32(uint32(atomic.AddInt32(&q.idx, 1)) % uint32(q.size))
 	q.lock(shard)
